@@ -19,7 +19,7 @@ import (
 //     delimiter placement, lazy list continuation ...). A failure of one of the listed clauses on a case of
 //     the class is attributed wholesale.
 //   - exact part: the defect has one predictable effect on otherwise well-behaved documents (tables come
-//     last, a list item comes back as a "• " paragraph, the first table row comes back bold ...). run()
+//     last, the first table row comes back bold ...). run()
 //     applies the predicted effect of the open findings whose class the case is in and compares again; only
 //     if the observation equals the prediction exactly is the failure tagged with the finding's id, and only
 //     a tagged failure is attributed. Any other deviation in such a case stays a violation.
@@ -39,16 +39,15 @@ const (
 	idDelimContext = "KF-C20-delimiter-context"
 	idSimpleTable  = "KF-C20-simple-table"
 	idMetadata     = "KF-C20-metadata"
-	idListReimport = "KF-C20-list-reimport"
 	idEmptyPara    = "KF-C20-empty-paragraph"
 	idTableHeader  = "KF-C20-table-header"
 	idHeadingDeep  = "KF-C20-heading-deep"
 	idWrapCode     = "KF-C20-wrap-code-span"
 	idLineEnd      = "KF-C20-line-end"
-	idCodeLines    = "KF-C20-code-lines"
 	idHeadingStyle = "KF-C20-heading-style-emphasis"
 	idToggleOff    = "KF-C20-toggle-off"
 	idNumIDZero    = "KF-C20-numid-zero"
+	idListTrailing = "KF-C20-list-trailing-blank"
 )
 
 const allE = "C20.E1 C20.E2 C20.E3 C20.E4 C20.E5"
@@ -60,8 +59,6 @@ var kfs = []kf{
 		[]part{{allE, hasWrappedCodeSpan, false}}},
 	{idLineEnd, "exporter: a line feed inside the text of a run is copied into the Markdown (only table cells turn it into a blank; Word shows it as a blank): an ATX heading ends at it and the rest becomes a paragraph ('# a\\nb'), two of them with only blanks in between end the paragraph / heading / item (a quote becomes two paragraphs, which the importer glues together), one right after the marker of an item does the same, inside a code span (whose content cannot be escaped) it lets the next line start with the code's own block syntax or turns a span delimited by three backticks into a fence opening; everywhere else it reads as a soft line break, which comes back as a blank, so that the second export has 'a b' where the first had 'a\\nb'",
 		[]part{{allE, brokenByLineEnd, false}, {"C20.E5", hasSurvivingLineEnd, false}}},
-	{idCodeLines, "round trip of a CodeBlock paragraph whose text has several lines: it is exported as one fenced block, the importer makes one CodeBlock paragraph per code line (renderer.go renderCodeBlock) and the exporter writes every CodeBlock paragraph as a fenced block of its own: the lines come back as separate code blocks",
-		[]part{{"C20.E4 C20.E5", hasMultiLineCode, false}}},
 	{idHeadingStyle, "round trip of a heading whose runs carry no bold/italic of their own (every heading of a document written by Word: the formatting comes from the style): it is exported as '# x'; the importer puts the heading style's bold/italic on the runs themselves (as AddHeadingParagraph does) and the exporter writes run formatting inside a heading as emphasis: the second export has '# **x**'",
 		[]part{{"C20.E5", hasStyleOnlyHeading, true}}},
 	{idToggleOff, "reader (document.go parseRunProperties): w:b / w:i / w:strike are taken as 'on' whatever their w:val: a run with <w:b w:val=\"false\"/> (\"0\", \"off\": explicitly NOT bold, as Word writes it for plain text inside a bold style) is opened as bold and exported with '**' (ExportToFile, or Open + ExportToString)",
@@ -69,11 +66,11 @@ var kfs = []kf{
 	{idNumIDZero, "exporter (writer.go isListParagraph): any w:numPr makes a paragraph a list item, also <w:numId w:val=\"0\"/>, which removes numbering from the paragraph: a plain paragraph of a document written by Word is exported as '- text'",
 		[]part{{allE, hasNumIDZero, false}}},
 	{idSimpleTable, "exporter: with UseGFMTables off a table is written as lines 'a | b' with '**' around the first (writeSimpleTable), which is not a Markdown table: it reads (and comes back) as paragraph text - one paragraph 'a | b c | d' for a full table, split at rows of empty cells, with literal '**' when the first row begins or ends with an empty cell; already bold header cells give '****a** | **b****'",
-		[]part{{allE, hasSimpleTable, true}}},
+		[]part{{allE, hasSimpleTable, true}, {"C20.E5", hasRuleTableBetweenCode, false}}},
 	{idMetadata, "IncludeMetadata writes a '---' front matter block that the library's own converter (no front matter support) reads back as a thematic break and a setext heading 'title: \"Document\"': the round trip gains a heading, the second export differs",
 		[]part{{"C20.E4 C20.E5", func(c Case) bool { return c.O.Meta }, true}}},
-	{idListReimport, "importer (renderer.go:261-268): a list item is converted to a normal paragraph with a literal '• ' prepended (no numbering properties): list items do not survive the round trip, the second export has '• a' paragraphs instead of '- a' items",
-		[]part{{"C20.E4 C20.E5", hasVisibleListItem, true}}},
+	{idListTrailing, "exporter: the blank line that closes a list is written when the next paragraph arrives (closeList is the first statement of writeHeading / writeQuote / writeNormalParagraph / flushCodeBlock), before that paragraph turns out to have no visible text: a list item followed by such a paragraph and then by another item, or by nothing visible, is exported with a blank line after it ('- a\\n\\n- b\\n', '- a\\n\\n' at the end); after the round trip (the paragraph is not in the Markdown) the export has '- a\\n- b\\n', '- a\\n'",
+		[]part{{"C20.E5", hasListThenInvisible, true}}},
 	{idEmptyPara, "exporter: a paragraph without visible text is written as a bare newline (writer.go:220-222), which Markdown cannot carry back: the second export lacks the extra blank lines",
 		[]part{{"C20.E5", hasEmptyParagraph, true}}},
 	{idTableHeader, "round trip makes the first table row bold (importer renderer.go:449 gives header cells emphasis 2, exporter writes bold header cells as '**a**'): a table whose first row is not bold re-exports with '**' around its header cells",
@@ -169,14 +166,13 @@ type effect struct {
 }
 
 var effects = []effect{
-	{id: idListReimport, active: hasVisibleListItem, seq4: bulletParagraphs, norm5: normBullets,
-		loose5: func(c Case) bool { return c.O.Wrap }}, // "• text" is a normal paragraph: it is wrapped, the item was not
 	{id: idSimpleTable, active: hasSimpleTable, seq1: simpleTableParagraphs,
-		seq4:   func(bs []Blk) []Blk { return dropOther(simpleTableParagraphs(bs)) }, // a thematic break comes back as an empty paragraph
+		seq4:   func(bs []Blk) []Blk { return dropOther(simpleTableParagraphs(bs)) }, // a thematic break comes back as an empty paragraph (an empty line of the code between two code lines)
 		norm5:  normSimpleTable,
 		loose5: func(c Case) bool { return true }}, // the row lines come back as one line
 	{id: idMetadata, active: func(c Case) bool { return c.O.Meta }, norm5: normFrontMatter,
 		seq4: func(bs []Blk) []Blk { return append([]Blk{{Kind: "h", Level: 2, Text: `title: "Document"`}}, bs...) }},
+	{id: idListTrailing, active: hasListThenInvisible, norm5: normItemGaps},
 	{id: idEmptyPara, active: hasEmptyParagraph, norm5: func(_ Case, md string) string { return normBlankLines(md) }},
 	{id: idTableHeader, active: hasPlainHeader, norm5: func(_ Case, md string) string { return normHeaderRows(md) }},
 	{id: idHeadingDeep, active: hasDeepHeading, norm5: func(_ Case, md string) string { return normDeepHeadings(md) }},
@@ -291,37 +287,60 @@ func normSimpleTable(_ Case, md string) string {
 	return b.String()
 }
 
+// dropOther: what is neither text nor table (a thematic break) comes back as a paragraph without visible text - nothing,
+// or an empty line of the code when it stands between two pieces of code, which are one piece then.
 func dropOther(bs []Blk) []Blk {
-	var out []Blk
-	for _, b := range bs {
-		if b.Kind != "other" {
-			out = append(out, b)
-		}
-	}
-	return out
-}
-
-func bulletParagraphs(bs []Blk) []Blk {
 	out := make([]Blk, len(bs))
 	for i, b := range bs {
-		if b.Kind == "li" {
-			b = Blk{Kind: "p", Text: "• " + b.Text}
+		if b.Kind == "other" {
+			b = Blk{Kind: kindGap}
 		}
 		out[i] = b
 	}
-	return out
+	return groupCode(out)
+}
+
+// hasRuleTableBetweenCode: a simple table whose lines read as no text at all (one column of empty cells: "****", a thematic
+// break, which comes back as a paragraph without visible text) stands between two CodeBlock paragraphs with nothing visible
+// in between: after the round trip the two pieces of code are one (predicted exactly for E4); the second export has one
+// fence, of a length that depends on both texts (E5: waived for this class).
+func hasRuleTableBetweenCode(c Case) bool {
+	if c.O.GFM {
+		return false
+	}
+	for i, b := range c.Blocks {
+		if b.K != "table" {
+			continue
+		}
+		rule := true
+		for _, x := range ParseMD(simpleTableText(Blk{Kind: "table", Cells: b.Cells, HdrBold: b.HdrBold})) {
+			rule = rule && x.Kind == "other"
+		}
+		if !rule {
+			continue
+		}
+		near := func(step int) bool {
+			for j := i + step; j >= 0 && j < len(c.Blocks); j += step {
+				if c.Blocks[j].K == "code" {
+					return true
+				}
+				if visible(c.Blocks[j]) {
+					return false
+				}
+			}
+			return false
+		}
+		if near(-1) && near(1) {
+			return true
+		}
+	}
+	return false
 }
 
 var (
-	reItemLine  = regexp.MustCompile(`(?m)^[-*+] (.*)$`)
 	reBlankRun  = regexp.MustCompile(`\n{3,}`)
 	reSeparator = regexp.MustCompile(`^\|(-----\|)+$`)
 )
-
-// normBullets: "- a" item lines become "• a" paragraphs (a paragraph ends with a blank line).
-func normBullets(_ Case, md string) string {
-	return normBlankLines(reItemLine.ReplaceAllString(md, "• $1\n"))
-}
 
 func normBlankLines(md string) string {
 	return reBlankRun.ReplaceAllString(strings.TrimLeft(md, "\n"), "\n\n")
@@ -384,15 +403,6 @@ func hasKind(c Case, k string) bool {
 }
 
 func visible(b Block) bool { return b.K == "table" || !blank(b.text()) }
-
-func hasVisibleListItem(c Case) bool {
-	for _, b := range c.Blocks {
-		if b.K == "li" && !blank(b.T) {
-			return true
-		}
-	}
-	return false
-}
 
 // Heading7 and Heading9 carry no bold/italic in the default styles, Heading6 (what they come back as) is italic.
 func hasDeepHeading(c Case) bool {
@@ -866,6 +876,45 @@ func lineStartSyntax(w string) bool {
 	return i > 0 && i < len(w) && (w[i] == '.' || w[i] == ')')
 }
 
+// hasListThenInvisible: a list item with visible text is followed by a block of another kind without visible text, and
+// the next block with visible text is a list item again, or there is none.
+func hasListThenInvisible(c Case) bool {
+	for i, b := range c.Blocks {
+		if b.K != "li" || !visible(b) {
+			continue
+		}
+		other := false
+		j := i + 1
+		for ; j < len(c.Blocks) && !visible(c.Blocks[j]); j++ {
+			other = other || c.Blocks[j].K != "li"
+		}
+		if other && (j == len(c.Blocks) || c.Blocks[j].K == "li") {
+			return true
+		}
+	}
+	return false
+}
+
+// normItemGaps removes the empty lines between two item lines and after the last item line of the text.
+func normItemGaps(c Case, md string) string {
+	item := func(l string) bool { return strings.HasPrefix(l, c.O.Bullet+" ") || strings.HasPrefix(l, "1. ") }
+	lines := strings.Split(md, "\n")
+	var out []string
+	for i, l := range lines {
+		if l == "" && len(out) > 0 && item(out[len(out)-1]) {
+			j := i
+			for j < len(lines) && lines[j] == "" {
+				j++
+			}
+			if j == len(lines) || item(lines[j]) {
+				continue
+			}
+		}
+		out = append(out, l)
+	}
+	return strings.Join(out, "\n")
+}
+
 func hasEmptyParagraph(c Case) bool {
 	for _, b := range c.Blocks {
 		if b.K == "empty" || (b.K == "p" && blank(b.paraText())) {
@@ -892,7 +941,7 @@ func hasPlainHeader(c Case) bool {
 }
 
 // ---------------------------------------------------------------------------------------------
-// KF-C20-line-end / KF-C20-code-lines: line ends inside run text.
+// KF-C20-line-end: line ends inside run text.
 
 var reBlankLine = regexp.MustCompile(`\n[ \t\r]*\n`)
 
@@ -992,15 +1041,6 @@ func hasSurvivingLineEnd(c Case) bool {
 			if s := inlineText(b); hasLineEnd(s) || ((b.K == "li" || b.K == "q") && strings.Contains(s[len(strings.TrimRightFunc(s, unicode.IsSpace)):], "\r")) {
 				return true
 			}
-		}
-	}
-	return false
-}
-
-func hasMultiLineCode(c Case) bool {
-	for _, b := range c.Blocks {
-		if b.K == "code" && !blank(b.T) && hasLineEnd(b.T) {
-			return true
 		}
 	}
 	return false
